@@ -9,6 +9,15 @@ import PromModel.Suites.CrashSuite
   every run (suite `crash`, op `trace`), and C03's statement is evaluated on the state recovered after
   a kill at every enumerated persistence syscall (op `kill`).
 
+  Torn files (ops `stage` / `tear`, model `PromModel/Tsdb/CrashTear.lean`): the judge's predicate on a
+  state recovered from ONE torn file is C03's statement with the samples of destroyed log records
+  excused (`tearHolds_none_iff`; nothing is excused by a torn head-chunk file: `tearHolds_no_records`;
+  tearing later excuses less: `lost_antitone`, `owed_monotone`), and the mechanism that makes a torn
+  head-chunk file harmless for out-of-order data is proved for one series, all insert sequences, all
+  chunk limits and all surviving prefixes: `wbl_replay_complete`. Witnesses: the seeded mistake
+  (`stale_lastMmapRef_loses_witness`) and finding C03-F1 of the real code across two restarts
+  (`stale_marker_after_restart_witness`).
+
   Not proved (kept visible): the content-level statement `crash_safe_full` over the storage model.
 -/
 namespace Prom.C03
@@ -139,6 +148,233 @@ theorem killHolds_none_iff (o : String) (acked inflight gone present : List Stri
         · exact Or.inl ha
         · exact Or.inr (Classical.not_not.mp (this ha))
   · simp [ho]
+
+/-! ### Torn files (suite ops `stage` / `tear`) -/
+
+open Prom.CrashTear
+
+theorem mem_lost {off : Nat} {recs : List Rec} {x : String} :
+    x ∈ lost off recs ↔ ∃ r ∈ recs, off < r.1 ∧ x ∈ r.2 := by
+  unfold lost
+  simp only [List.mem_flatMap, List.mem_filter, decide_eq_true_eq]
+  constructor
+  · rintro ⟨r, ⟨hr, ho⟩, hx⟩; exact ⟨r, hr, ho, hx⟩
+  · rintro ⟨r, hr, ho, hx⟩; exact ⟨r, ⟨hr, ho⟩, hx⟩
+
+theorem mem_owed {acked : List String} {off : Nat} {recs : List Rec} {a : String} :
+    a ∈ owed acked off recs ↔ a ∈ acked ∧ a ∉ lost off recs := by
+  unfold owed
+  simp [List.mem_filter]
+
+/-- Tearing later destroys less. -/
+theorem lost_antitone {off off' : Nat} (h : off ≤ off') (recs : List Rec) :
+    ∀ x ∈ lost off' recs, x ∈ lost off recs := by
+  intro x hx
+  obtain ⟨r, hr, ho, hxr⟩ := mem_lost.mp hx
+  exact mem_lost.mpr ⟨r, hr, by omega, hxr⟩
+
+/-- …hence owes more. -/
+theorem owed_monotone {off off' : Nat} (h : off ≤ off') (acked : List String) (recs : List Rec) :
+    ∀ a ∈ owed acked off recs, a ∈ owed acked off' recs := by
+  intro a ha
+  obtain ⟨h1, h2⟩ := mem_owed.mp ha
+  exact mem_owed.mpr ⟨h1, fun h3 => h2 (lost_antitone h recs a h3)⟩
+
+/-- A cut behind every record destroys nothing. -/
+theorem lost_nil_of_complete (off : Nat) (recs : List Rec) (h : ∀ r ∈ recs, r.1 ≤ off) :
+    lost off recs = [] := by
+  apply List.eq_nil_iff_forall_not_mem.mpr
+  intro x hx
+  obtain ⟨r, hr, ho, _⟩ := mem_lost.mp hx
+  have := h r hr
+  omega
+
+/-- The judge's predicate on a torn-file state is C03's statement. -/
+theorem tearHolds_none_iff (o : String) (acked inflight present : List String) (off : Nat) (recs : List Rec) :
+    tearHolds o acked inflight present off recs = none ↔
+      (o = "ok" ∧ (∀ a ∈ acked, a ∉ lost off recs → a ∈ present) ∧
+        (∀ p ∈ present, p ∈ acked ∨ p ∈ inflight ∨ p ∈ lost off recs)) := by
+  unfold tearHolds
+  rw [killHolds_none_iff]
+  constructor
+  · rintro ⟨ho, h1, h2⟩
+    refine ⟨ho, fun a ha hl => h1 a (mem_owed.mpr ⟨ha, hl⟩), fun p hp => ?_⟩
+    rcases h2 p hp with h | h
+    · exact Or.inl (mem_owed.mp h).1
+    · rcases List.mem_append.mp h with h | h
+      · exact Or.inr (Or.inl h)
+      · exact Or.inr (Or.inr h)
+  · rintro ⟨ho, h1, h2⟩
+    refine ⟨ho, fun a ha => h1 a (mem_owed.mp ha).1 (mem_owed.mp ha).2, fun p hp => ?_⟩
+    rcases h2 p hp with h | h | h
+    · by_cases hl : p ∈ lost off recs
+      · exact Or.inr (List.mem_append.mpr (Or.inr hl))
+      · exact Or.inl (mem_owed.mpr ⟨h, hl⟩)
+    · exact Or.inr (List.mem_append.mpr (Or.inl h))
+    · exact Or.inr (List.mem_append.mpr (Or.inr h))
+
+/-- A torn head-chunk file destroys no log record: every acknowledged sample stays owed — the judge
+    then evaluates exactly the kill predicate. -/
+theorem tearHolds_no_records (o : String) (acked inflight present : List String) (off : Nat) :
+    tearHolds o acked inflight present off [] = killHolds o acked inflight [] present := by
+  have h : owed acked off [] = acked := by
+    unfold owed lost
+    exact List.filter_eq_self.mpr (by simp)
+  unfold tearHolds
+  rw [h]
+  simp [lost]
+
+/-! ### out-of-order m-map markers -/
+
+theorem replay_append (L : Nat) (w1 w2 : List WEntry) (h : List Nat) :
+    replay L (w1 ++ w2) h = replay L w2 (replay L w1 h) := by
+  induction w1 generalizing h with
+  | nil => rfl
+  | cons e r ih => cases e <;> simp [replay, ih]
+
+theorem loaded_append (L : Nat) (cs : List OChunk) (c : OChunk) :
+    loaded L (cs ++ [c]) = loaded L cs ++ (if c.ref ≤ L then c.samples else []) := by
+  unfold loaded
+  by_cases h : c.ref ≤ L <;> simp [List.filter_append, h]
+
+/-- Invariant of the writer w.r.t. a replay with reference `L`; `ins` = samples inserted so far. -/
+structure WInv (L : Nat) (s : WState) (ins : List Nat) : Prop where
+  cover : ∀ x ∈ ins, x ∈ loaded L s.chunks ∨ x ∈ replay L s.wbl []
+  headSub : ∀ x ∈ s.head, x ∈ replay L s.wbl []
+  exact : (∀ c ∈ s.chunks, c.ref ≤ L) → replay L s.wbl [] = s.head
+  bound : ∀ c ∈ s.chunks, c.ref < s.nextRef
+  empty : s.head = [] → replay L s.wbl [] = []
+
+theorem winv_init (L : Nat) : WInv L {} [] :=
+  ⟨by simp, by simp, by intro; rfl, by simp, by intro; rfl⟩
+
+theorem winv_insert (cap L : Nat) (s : WState) (ins : List Nat) (x gap : Nat) (h : WInv L s ins) :
+    WInv L (oooInsert cap s x gap) (ins ++ [x]) := by
+  unfold oooInsert
+  by_cases he : s.head.isEmpty = true
+  · have hnil : s.head = [] := List.isEmpty_iff.mp he
+    have hH := h.empty hnil
+    rw [if_pos he]
+    have hrep : replay L (s.wbl ++ [WEntry.mark 0, WEntry.smp x]) [] = [x] := by
+      rw [replay_append, hH]; simp [replay]
+    refine ⟨?_, ?_, ?_, h.bound, ?_⟩
+    · intro y hy
+      rcases List.mem_append.mp hy with hy | hy
+      · rcases h.cover y hy with hc | hc
+        · exact Or.inl hc
+        · rw [hH] at hc; cases hc
+      · right; simp only [hrep]; simpa using hy
+    · intro y hy; simp only [hrep]; simpa using hy
+    · intro _; exact hrep
+    · intro hc; simp at hc
+  · rw [if_neg he]
+    by_cases hl : s.head.length < cap
+    · rw [if_pos hl]
+      have hrep : replay L (s.wbl ++ [WEntry.smp x]) [] = replay L s.wbl [] ++ [x] := by
+        rw [replay_append]; simp [replay]
+      refine ⟨?_, ?_, ?_, h.bound, ?_⟩
+      · intro y hy
+        rcases List.mem_append.mp hy with hy | hy
+        · rcases h.cover y hy with hc | hc
+          · exact Or.inl hc
+          · right; simp only [hrep]; exact List.mem_append.mpr (Or.inl hc)
+        · right; simp only [hrep]; exact List.mem_append.mpr (Or.inr hy)
+      · intro y hy
+        simp only [hrep]
+        rcases List.mem_append.mp hy with hy | hy
+        · exact List.mem_append.mpr (Or.inl (h.headSub y hy))
+        · exact List.mem_append.mpr (Or.inr hy)
+      · intro hall; simp only [hrep]; rw [h.exact hall]
+      · intro hc; simp at hc
+    · rw [if_neg hl]
+      dsimp only
+      have hrep : replay L (s.wbl ++ [WEntry.mark (s.nextRef + gap), WEntry.smp x]) [] =
+          (if s.nextRef + gap ≤ L then [] else replay L s.wbl []) ++ [x] := by
+        rw [replay_append]; simp [replay]
+      by_cases hr : s.nextRef + gap ≤ L
+      · have hall : ∀ c ∈ s.chunks, c.ref ≤ L := fun c hc => by have := h.bound c hc; omega
+        have hH := h.exact hall
+        refine ⟨?_, ?_, ?_, ?_, ?_⟩
+        · intro y hy
+          simp only [hrep, loaded_append, hr, if_true]
+          rcases List.mem_append.mp hy with hy | hy
+          · left
+            rcases h.cover y hy with hc | hc
+            · exact List.mem_append.mpr (Or.inl hc)
+            · rw [hH] at hc; exact List.mem_append.mpr (Or.inr hc)
+          · right; simpa using hy
+        · intro y hy; simp only [hrep, hr, if_true]; simpa using hy
+        · intro _; simp only [hrep, hr, if_true]; rfl
+        · intro c hc
+          rcases List.mem_append.mp hc with hc | hc
+          · have := h.bound c hc; show c.ref < s.nextRef + gap + 1; omega
+          · simp at hc; subst hc; show s.nextRef + gap < s.nextRef + gap + 1; omega
+        · intro hc; simp at hc
+      · refine ⟨?_, ?_, ?_, ?_, ?_⟩
+        · intro y hy
+          simp only [hrep, loaded_append, hr, if_false, List.append_nil]
+          rcases List.mem_append.mp hy with hy | hy
+          · rcases h.cover y hy with hc | hc
+            · exact Or.inl hc
+            · exact Or.inr (List.mem_append.mpr (Or.inl hc))
+          · exact Or.inr (List.mem_append.mpr (Or.inr hy))
+        · intro y hy; simp only [hrep, hr, if_false]
+          exact List.mem_append.mpr (Or.inr hy)
+        · intro hall
+          have := hall ⟨s.nextRef + gap, s.head⟩ (List.mem_append.mpr (Or.inr (by simp)))
+          exact absurd this hr
+        · intro c hc
+          rcases List.mem_append.mp hc with hc | hc
+          · have := h.bound c hc; show c.ref < s.nextRef + gap + 1; omega
+          · simp at hc; subst hc; show s.nextRef + gap < s.nextRef + gap + 1; omega
+        · intro hc; simp at hc
+
+theorem winv_run (cap L : Nat) (ops : List (Nat × Nat)) (s : WState) (ins : List Nat) (h : WInv L s ins) :
+    WInv L (runW cap s ops) (ins ++ ops.map (·.1)) := by
+  induction ops generalizing s ins with
+  | nil => simpa [runW] using h
+  | cons o rest ih =>
+    obtain ⟨x, gap⟩ := o
+    have := ih (oooInsert cap s x gap) (ins ++ [x]) (winv_insert cap L s ins x gap h)
+    simpa [runW, List.append_assoc] using this
+
+/-- **A torn head-chunk file loses no out-of-order sample**: whatever the chunk size limit, whatever
+    sequence of out-of-order inserts (with arbitrary other chunks in between), and whatever part of the
+    chunk files survives — as long as `lastMmapRef = L` is faithful (the surviving chunks are exactly
+    those with reference `≤ L`; `L = 0`: all gone) — every sample ever inserted is in an m-mapped chunk
+    that was loaded or in the OOO head chunk rebuilt from the WBL. -/
+theorem wbl_replay_complete (cap L : Nat) (ops : List (Nat × Nat)) :
+    ∀ x ∈ ops.map (·.1), x ∈ recovered L (runW cap {} ops).chunks (runW cap {} ops).wbl := by
+  intro x hx
+  have h := winv_run cap L ops {} [] (winv_init L)
+  rcases h.cover x (by simpa using hx) with hc | hc
+  · exact List.mem_append.mpr (Or.inl hc)
+  · exact List.mem_append.mpr (Or.inr hc)
+
+/-- Non-vacuity of `wbl_replay_complete` and the seeded mistake: limit 2, five inserts give the chunks
+    `1 ↦ [10,11]`, `2 ↦ [12,13]` and the head `[14]`. If the torn file is deleted (nothing loadable,
+    faithful reference 0) everything comes back from the WBL; replaying the WBL with the STALE
+    reference of the failed first load (1, the chunk read before the torn one) honours the marker of
+    chunk 1 although that chunk is gone: 10 and 11 are lost. -/
+theorem stale_lastMmapRef_loses_witness :
+    (runW 2 {} [(10, 0), (11, 0), (12, 0), (13, 0), (14, 0)]).chunks = [⟨1, [10, 11]⟩, ⟨2, [12, 13]⟩] ∧
+    recovered 0 (runW 2 {} [(10, 0), (11, 0), (12, 0), (13, 0), (14, 0)]).chunks
+      (runW 2 {} [(10, 0), (11, 0), (12, 0), (13, 0), (14, 0)]).wbl = [10, 11, 12, 13, 14] ∧
+    recoveredWith 0 1 (runW 2 {} [(10, 0), (11, 0), (12, 0), (13, 0), (14, 0)]).chunks
+      (runW 2 {} [(10, 0), (11, 0), (12, 0), (13, 0), (14, 0)]).wbl = [12, 13, 14] := by decide
+
+/-- Finding C03-F1 (real code, unchanged tree): a marker is judged against `lastMmapRef` of the
+    CURRENT restart, but the reference space moves on. Limit 2, inserts 10, 11, 12: the WBL is
+    `mark 0, 10, 11, mark 1, 12` and chunk `1 ↦ [10,11]` sits in the chunk write buffer. The kill
+    leaves the WBL cut behind the marker record (the transaction carrying 12 was in flight) and no
+    chunk on disk. First restart (`lastMmapRef = 0`): marker skipped, 10 and 11 are served from the
+    OOO head chunk. That session m-maps other chunks (in-order ones, other series) and shuts down
+    cleanly; at the next restart `lastMmapRef ≥ 1`, the old marker is honoured, the head chunk is
+    emptied — and no chunk on disk holds 10 and 11: acknowledged samples are gone. -/
+theorem stale_marker_after_restart_witness :
+    (runW 2 {} [(10, 0), (11, 0), (12, 0)]).wbl = [.mark 0, .smp 10, .smp 11, .mark 1, .smp 12] ∧
+    recovered 0 [] (runW 2 {} [(10, 0), (11, 0), (12, 0)]).wbl.dropLast = [10, 11] ∧
+    recovered 1 [] (runW 2 {} [(10, 0), (11, 0), (12, 0)]).wbl.dropLast = [] := by decide
 
 /-- Non-vacuity: a concrete trace of a head compaction followed by a WAL checkpoint and truncation is
     accepted by the discipline (file 1 = `index`). -/
